@@ -36,6 +36,9 @@ type H struct {
 	sample     []pair // types kept for the predicate matrix
 	pkgRepl    *strings.Replacer
 	predSample []ty
+	// part E: cases for the lookup model (Verif.C09.Model), numbered after the cases of part D
+	lookupCases []string
+	caseIdx     int
 }
 
 // id returns the identity of the object behind t (xreflect.Type is a func value and cannot be compared with ==;
